@@ -271,5 +271,7 @@ def run(chk, prog):
         if not pl:
             continue         # thin overloads that forward to the planning overloads
         chk.check(imp and pl and imp[0] < pl[0], "R4", f.where, "prepareFFT consults the wisdom file before planning", "prepareFFT:wisdom-first:%s" % f["sig"])
+    for key_ in list(mm.eff.memo):
+        chk.functions.add(key_[0])
     chk.notes.append("C12: E4 write sets of every call in the output block vs. the simulation state, observer-free control/data of state-writing calls, "
                      "tracking as a sink, who-may-call for nondeterminism sources. NOT decided: bit-identity of two concrete executions.")
